@@ -3,7 +3,7 @@ import numpy as np
 
 from aomon.core import pure_call
 from aomon.oracles import vk
-from aomon.probes import ScriptedGenerator, unit_script
+from aomon.probes import ScriptedGenerator, unit_script, discover_shapes, unit_stream_script
 
 LEVEL = "exploration"
 TECHNIQUE = "reference-model monitor (closed form + series, Hankel transform of the probed PSD, mpmath) and mutual-consistency relation monitor on the five real functions"
@@ -142,7 +142,7 @@ def run(ctx, spec):
             i, j = int(rng.integers(0, N)), int(rng.integers(0, N))
             if (i, j) == (N // 2, N // 2):
                 continue
-            g = ScriptedGenerator(unit_script(0, i * N + j, [(N, N), (N, N)]))
+            g = ScriptedGenerator(unit_stream_script(i * N + j, discover_shapes(aotools.ft_phase_screen, r0, N, delta, L0, 1e-10)))
             s = aotools.ft_phase_screen(r0, N, delta, L0, 1e-10, seed=g)
             ctx.count("psd_probes")
             psd_obs = (float(np.abs(s).max()) / del_f) ** 2
